@@ -409,6 +409,111 @@ def desugar_option_combinators(crates, table=None):
     return done
 
 
+_RESULT_COMBINATORS = {'map': 2, 'map_err': 2, 'and_then': 2}
+
+
+def desugar_result_combinators(crates, table=None):
+    """`res.map(f)`, `res.map_err(f)`, `res.and_then(f)` with f a closure written at the call site (unknown to the
+    reference table) or a function item, rewritten into `match res { Ok(x) => .., Err(e) => .. }` -- the Result
+    counterpart of desugar_option_combinators.  Returns [(combinator, caller name)]."""
+    done = []
+    ref_names = set(table['fns']) if table else set()
+    for c in crates:
+        by_key = {f['key']: f for f in c['fns']}
+        for f in c['fns']:
+            if not f.get('blocks'):
+                continue
+            defs = {}
+            for blk in f['blocks']:
+                for st in blk['st']:
+                    if st['k'] == 'assign' and not st['pl']['p']:
+                        defs.setdefault(st['pl']['l'], []).append(st)
+            for bi in range(len(f['blocks'])):
+                blk = f['blocks'][bi]
+                t = blk['term']
+                if t['k'] != 'call' or t.get('t', -1) is None or t.get('t', -1) < 0:
+                    continue
+                m = re.match(r'^(?:std|core)::result::Result::(\w+)$', t.get('calleep') or '')
+                if not m or m.group(1) not in _RESULT_COMBINATORS or len(t['args']) != _RESULT_COMBINATORS[m.group(1)]:
+                    continue
+                comb = m.group(1)
+                o, fop = t['args'][0], t['args'][-1]
+                if o['k'] not in ('copy', 'move'):
+                    continue
+                callee = None
+                if fop['k'] == 'const' and fop.get('fn'):
+                    callee = ('fn', fop['fn'], fop.get('fnp') or fop['fn'])
+                elif fop['k'] in ('copy', 'move') and not fop['pl']['p']:
+                    ds = defs.get(fop['pl']['l'], [])
+                    if len(ds) == 1 and ds[0]['rv']['k'] == 'agg' and ds[0]['rv'].get('ak') == 'closure':
+                        cl = by_key.get(ds[0]['rv']['name'])
+                        if cl is not None and cl['name'] not in ref_names and cl.get('blocks'):
+                            callee = ('closure', cl['key'], cl['name'])
+                if callee is None:
+                    continue
+                line = t.get('line')
+                dest, nxt = t['dest'], t['t']
+                locs = f['locals']
+
+                def new_local(ty):
+                    locs.append(ty)
+                    return len(locs) - 1
+
+                def payload(variant, idx):
+                    return {'l': o['pl']['l'], 'p': list(o['pl']['p']) + [{'k': 'downcast', 'n': variant, 'v': idx},
+                                                                          {'k': 'field', 'i': 0, 'n': '0', 'adt': 'core::result::Result', 'ty': '?', 'union': False}]}
+
+                def wrap(variant, src_local):
+                    return {'k': 'agg', 'ak': 'adt', 'name': 'core::result::Result', 'variant': variant, 'ops': [{'k': 'move', 'pl': {'l': src_local, 'p': []}}]}
+                d_l, p_l, r_l = new_local('isize'), new_local('?'), new_local('?')
+                L = len(f['blocks'])
+                called = ('Err', 1) if comb == 'map_err' else ('Ok', 0)
+                passed = called[1]
+                other = ('Ok', 0) if comb == 'map_err' else ('Err', 1)
+                b_call, b_pass, b_wrap = L, L + 1, L + 2
+                blk['st'].append({'k': 'assign', 'line': line, 'pl': {'l': d_l, 'p': []}, 'rv': {'k': 'discr', 'pl': {'l': o['pl']['l'], 'p': list(o['pl']['p'])}}})
+                blk['term'] = {'k': 'switch', 'line': line, 'd': {'k': 'move', 'pl': {'l': d_l, 'p': []}}, 'ts': [[str(passed), b_call]], 'o': b_pass, 'desugared': comb}
+                st = [{'k': 'assign', 'line': line, 'pl': {'l': p_l, 'p': []}, 'rv': {'k': 'use', 'o': {'k': 'move', 'pl': payload(*called)}}}]
+                call_dest = copy.deepcopy(dest) if comb == 'and_then' else {'l': r_l, 'p': []}
+                after = nxt if comb == 'and_then' else b_wrap
+                if callee[0] == 'fn':
+                    call = {'k': 'call', 'line': line, 'exp': False, 'callee': callee[1], 'calleep': callee[2], 'res': callee[1], 'resp': callee[2], 'gen': '[]',
+                            'unsafe': False, 'local': callee[1] in by_key, 'fnop': None, 'args': [{'k': 'move', 'pl': {'l': p_l, 'p': []}}], 'dest': call_dest, 't': after}
+                else:
+                    t_l = new_local('(?,)')
+                    st.append({'k': 'assign', 'line': line, 'pl': {'l': t_l, 'p': []}, 'rv': {'k': 'agg', 'ak': 'tuple', 'name': '', 'variant': '',
+                                                                                         'ops': [{'k': 'move', 'pl': {'l': p_l, 'p': []}}]}})
+                    call = {'k': 'call', 'line': line, 'exp': False, 'callee': 'core::ops::function::FnOnce::call_once', 'calleep': 'core::ops::function::FnOnce::call_once',
+                            'res': callee[1], 'resp': callee[2], 'gen': '[]', 'unsafe': False, 'local': True, 'fnop': None,
+                            'args': [copy.deepcopy(fop), {'k': 'move', 'pl': {'l': t_l, 'p': []}}], 'dest': call_dest, 't': after}
+                f['blocks'].append({'st': st, 'term': call, 'cleanup': False})
+                q_l = new_local('?')
+                f['blocks'].append({'st': [{'k': 'assign', 'line': line, 'pl': {'l': q_l, 'p': []}, 'rv': {'k': 'use', 'o': {'k': 'move', 'pl': payload(*other)}}},
+                                           {'k': 'assign', 'line': line, 'pl': copy.deepcopy(dest), 'rv': wrap(other[0], q_l)}],
+                                    'term': {'k': 'goto', 't': nxt}, 'cleanup': False})
+                f['blocks'].append({'st': [{'k': 'assign', 'line': line, 'pl': copy.deepcopy(dest), 'rv': wrap(called[0], r_l)}] if comb != 'and_then' else [],
+                                    'term': {'k': 'goto', 't': nxt}, 'cleanup': False})
+                f['desugared'] = True
+                done.append(('Result::' + comb, f['name']))
+    return done
+
+
+def _closure_value(f, o, depth=0):
+    """key of the closure an operand holds, following single-definition copies / moves / references of plain locals"""
+    if depth > 6 or o.get('k') not in ('copy', 'move') or o['pl']['p']:
+        return None
+    l = o['pl']['l']
+    defs = [st for b in f['blocks'] for st in b['st'] if st['k'] == 'assign' and not st['pl']['p'] and st['pl']['l'] == l]
+    if len(defs) != 1 or any(b['term']['k'] == 'call' and b['term'].get('dest') and not b['term']['dest']['p'] and b['term']['dest']['l'] == l for b in f['blocks']):
+        return None
+    rv = defs[0]['rv']
+    if rv['k'] == 'agg' and rv.get('ak') == 'closure':
+        return rv.get('name')
+    if rv['k'] == 'use':
+        return _closure_value(f, rv['o'], depth + 1)
+    return None
+
+
 def inline_local_closure_calls(crates, table=None):
     """A closure defined in a function and called directly by it (`let f = |x| ..; f(a)`) is straight-line code
     with a name: splice its body into each direct call site (rust-call ABI: the argument tuple is spread over the
@@ -428,6 +533,10 @@ def inline_local_closure_calls(crates, table=None):
                                                                      'core::ops::function::FnOnce::call_once'):
                         continue
                     cl = by_key.get(t.get('res') or '')
+                    if (cl is None or cl.get('kind') != 'Closure') and len(t['args']) == 2:
+                        # a generic helper `fn h(step: impl FnOnce(..))` spliced into its caller: the callee was not
+                        # resolvable inside h, but here the callable is a local holding one closure aggregate
+                        cl = by_key.get(_closure_value(f, t['args'][0]) or '')
                     if cl is None or cl.get('kind') != 'Closure' or cl is f or len(t['args']) != 2 or not cl.get('blocks'):
                         continue
                     if cl['name'] in ref_names:
@@ -596,7 +705,8 @@ def thread_const_bool_gotos(f):
         ts = S['term']
         neg = False
         if len(S['st']) == 1 and S['st'][0]['k'] == 'assign' and not S['st'][0]['pl']['p'] and S['st'][0]['rv']['k'] == 'unop' and S['st'][0]['rv'].get('op') == 'Not' \
-                and S['st'][0]['rv']['o'].get('k') in ('copy', 'move') and not S['st'][0]['rv']['o']['pl']['p'] and S['st'][0]['rv']['o']['pl']['l'] == d \
+                and (S['st'][0]['rv'].get('o') or S['st'][0]['rv'].get('a') or {}).get('k') in ('copy', 'move') \
+                and not (S['st'][0]['rv'].get('o') or S['st'][0]['rv'].get('a'))['pl']['p'] and (S['st'][0]['rv'].get('o') or S['st'][0]['rv'].get('a'))['pl']['l'] == d \
                 and ts['k'] == 'switch' and ts['d'].get('k') in ('copy', 'move') and not ts['d']['pl']['p'] and ts['d']['pl']['l'] == S['st'][0]['pl']['l'] \
                 and reads.get(d, 0) == 1 and reads.get(S['st'][0]['pl']['l'], 0) == 1:
             # S is `n = !d; switch n` (`if !(a || b)`): same thing with the constant negated
